@@ -78,7 +78,7 @@ def make(variant):
     return H.make_opt(dict(base, beta1=0.9), "pmapq", 1), "pmap"
   if variant == "ds_fd_metrics":
     return H.make_opt(dict(base, compression_rank=1, block_size=8, frequent_directions=True, reuse_preconditioner=True, generate_fd_metrics=True,
-                           skip_preconditioning_rank_lt=2), "jit"), "plain"
+                           statistics_compute_steps=2, skip_preconditioning_rank_lt=2), "jit"), "plain"
   if variant == "ds_comp":
     return H.make_opt(dict(base, compression_rank=1, block_size=8), "jit"), "plain"
   if variant == "ds_comp_neg":
@@ -246,8 +246,9 @@ def run_item(item, T, rec):
     except Exception as e:  # pylint: disable=broad-except
       kind, where = H.classify_exception(e)
       if kind == "reject":
-        rec.skip("rejected:" + where)
-        return
+        # the variants are fixed configurations that are meant to be accepted: a rejection leaves this variant unobserved,
+        # which must not pass silently (worker status harness_error -> the run is inconclusive)
+        raise RuntimeError("C14 variant %s is rejected by the optimizer: %s" % (variant, str(e)[:300]))
       rec.violation("crash:" + where, "variant %s raised %s: %s" % (variant, type(e).__name__, str(e)[:200]), wit)
       return
     for k, b in enumerate(blobs):
